@@ -81,6 +81,16 @@ package p9
 //@ define globalLocked(r *fidRef) bool = held(r.server.renameMu) == -1
 //@ define fenced(r *fidRef) bool = r.pathNode.deleted != 0
 
+// ---- C05: ghost accounting of references and File ownership --------------------
+// owed(r): references to fidRef r that the current invocation holds (it must
+// drop them, or hand them to a table entry or a parent link, before it returns).
+// own(f): 1 = File obtained from the backend by this invocation and not yet
+// closed or stored, 2 = owned by a fidRef, 3 = closed.
+//@ refcount fidRef.refs [C05,C15]
+//@ reflink fidRef.parent [C05,C15]
+//@ reftable connState.fids [C05,C15]
+//@ ownfield fidRef.file [C05,C15]
+
 //@ inline (*fidRef).isDeleted, (*fidRef).hasParent, (*fidRef).maybeParent, (*fidRef).IncRef, CanOpen, (OpenFlags).Mode
 
 // ---- C09 ---------------------------------------------------------------------
@@ -103,7 +113,10 @@ package p9
 // ---- fid table ----------------------------------------------------------------
 //@ func (*connState).LookupFID
 //@   requires[C15,C16] held(cs.fidMu) == 0
-//@   modifies type:fidRef.refs
+//@   modifies type:fidRef.refs, $owed
+//@   ensures[C05,C15] @takes-one-reference result1 ==> owed(result0) == old(owed(result0)) + 1
+//@   ensures[C05,C15] @no-other-reference sameOwed(result0)
+//@   ensures[C05,C15] @none-when-unbound !result1 ==> sameOwed()
 //@   ensures[C04] @found-iff-bound result1 == old(has(cs.fids, fid))
 //@   ensures[C04] @returns-binding result1 ==> result0 == cs.fids[fid] && result0 != nil
 //@   ensures[C04] @nil-when-unbound !result1 ==> result0 == nil
@@ -123,6 +136,7 @@ package p9
 //@ define InamesSafe() bool = forall(pn, *pathNode, forall(r, *fidRef, has(pn.childRefNames, r) ==> safe(pn.childRefNames[r])))
 
 //@ func (*connState).InsertFID
+//@   requires[C05,C15] owedNonNeg()
 //@   requires[C15,C16] held(cs.fidMu) == 0
 //@   requires[C04] newRef != nil && newRef.server == cs.server
 //@   requires[C04] Ifid(cs)
@@ -131,7 +145,10 @@ package p9
 //@   ensures[C09] InamesSafe()
 //@   panic_ensures[C09] InamesSafe()
 //@   ensures[C04,C03] nocalls()
-//@   modifies mapof(cs.fids), type:fidRef.refs, maps(map[*fidRef]string), maps(map[string]map[*fidRef]struct{}), maps(map[*fidRef]struct{}), $n.File.Close
+//@   modifies mapof(cs.fids), type:fidRef.refs, maps(map[*fidRef]string), maps(map[string]map[*fidRef]struct{}), maps(map[*fidRef]struct{}), $n.File.Close, $owed, $own
+//@   ensures[C05,C15] @references-balanced sameOwed()
+//@   panic_ensures[C05,C15] @references-balanced-on-panic sameOwed()
+//@   ensures[C05,C15] @no-file-leaked sameOwn()
 //@   ensures[C04] @binds has(cs.fids, fid) && cs.fids[fid] == newRef
 //@   ensures[C04] @others-unchanged forall(k, fid, k != fid ==> has(cs.fids, k) == old(has(cs.fids, k)) && cs.fids[k] == old(cs.fids[k]))
 //@   ensures[C15,C16] samelocks()
@@ -139,6 +156,7 @@ package p9
 //@   maypanic
 //
 //@ func (*connState).DeleteFID
+//@   requires[C05,C15] owedNonNeg()
 //@   requires[C15,C16] held(cs.fidMu) == 0
 //@   requires[C04] Ifid(cs)
 //@   ensures[C04] Ifid(cs)
@@ -147,7 +165,10 @@ package p9
 //@   requires[C09] InamesSafe()
 //@   ensures[C09] InamesSafe()
 //@   panic_ensures[C09] InamesSafe()
-//@   modifies mapof(cs.fids), type:fidRef.refs, maps(map[*fidRef]string), maps(map[string]map[*fidRef]struct{}), maps(map[*fidRef]struct{}), $n.File.Close
+//@   modifies mapof(cs.fids), type:fidRef.refs, maps(map[*fidRef]string), maps(map[string]map[*fidRef]struct{}), maps(map[*fidRef]struct{}), $n.File.Close, $owed, $own
+//@   ensures[C05,C15] @references-balanced sameOwed()
+//@   panic_ensures[C05,C15] @references-balanced-on-panic sameOwed()
+//@   ensures[C05,C15] @no-file-leaked sameOwn()
 //@   ensures[C04] @unbinds !has(cs.fids, fid)
 //@   ensures[C04] @others-unchanged forall(k, fid, k != fid ==> has(cs.fids, k) == old(has(cs.fids, k)) && cs.fids[k] == old(cs.fids[k]))
 //@   ensures[C04] @ebadf-iff-unbound !old(has(cs.fids, fid)) ==> errIs(result, linux.EBADF)
@@ -165,7 +186,11 @@ package p9
 //@   requires[C09] InamesSafe()
 //@   ensures[C09] InamesSafe()
 //@   panic_ensures[C09] InamesSafe()
-//@   modifies type:fidRef.refs, maps(map[*fidRef]string), maps(map[string]map[*fidRef]struct{}), maps(map[*fidRef]struct{}), $n.File.Close
+//@   requires[C05,C15] @holds-a-reference owed(f) >= 1
+//@   modifies type:fidRef.refs, maps(map[*fidRef]string), maps(map[string]map[*fidRef]struct{}), maps(map[*fidRef]struct{}), $n.File.Close, $owed, $own
+//@   ensures[C05,C15] owed(f) == old(owed(f)) - 1 && sameOwed(f)
+//@   panic_ensures[C05,C15] owed(f) == old(owed(f)) - 1 && sameOwed(f)
+//@   ensures[C05,C15] sameOwn()
 //@   maypanic
 
 // ---- File interface: what the server must guarantee at every call -------------
@@ -185,6 +210,8 @@ package p9
 //@   requires[C09] @safe-name len(names) == 1 ==> safe(names[0])
 //@   ghost set $lasterr:error = result2
 //@   ensures result2 == nil ==> result1 != nil
+//@   requires[C05] @not-closed own(recv) != 3
+//@   ghost own result1 = ite(result2 == nil, 1, own(result1))
 //@   maypanic
 //@ interface File.WalkGetAttr
 //@   params names
@@ -194,59 +221,76 @@ package p9
 //@   requires[C09] @safe-name len(names) == 1 ==> safe(names[0])
 //@   ghost set $lasterr:error = result4
 //@   ensures result4 == nil ==> result1 != nil
+//@   requires[C05] @not-closed own(recv) != 3
+//@   ghost own result1 = ite(result4 == nil, 1, own(result1))
 //@   maypanic
 //@ interface File.StatFS
 //@   ghost set $lasterr:error = result1
+//@   requires[C05] @not-closed own(recv) != 3
 //@   maypanic
 //@ interface File.GetAttr
 //@   requires[C07] bound(recv) ==> readLocked(refof(recv))
 //@   ghost set $lasterr:error = result3
+//@   requires[C05] @not-closed own(recv) != 3
 //@   maypanic
 //@ interface File.SetAttr
 //@   requires[C07] bound(recv) ==> writeLocked(refof(recv))
 //@   requires[C08] bound(recv) ==> !fenced(refof(recv))
 //@   ghost set $lasterr:error = result0
+//@   requires[C05] @not-closed own(recv) != 3
 //@   maypanic
 //@ interface File.Close
+//@   requires[C05,C15] @closes-only-what-it-owns own(recv) == 1 || (bound(recv) && refof(recv).refs == 0 && own(recv) == 2)
+//@   ghost own recv = 3
+//@   panic_ensures own(recv) == 3
 //@   maypanic
 //@ interface File.Open
 //@   requires[C07] bound(recv) ==> readLocked(refof(recv))
 //@   requires[C07] @open-once bound(recv) ==> !refof(recv).opened
 //@   requires[C08] bound(recv) ==> !fenced(refof(recv))
 //@   ghost set $lasterr:error = result2
+//@   requires[C05] @not-closed own(recv) != 3
 //@   maypanic
 //@ interface File.ReadAt
 //@   requires[C07] bound(recv) ==> readLocked(refof(recv))
 //@   modifies elems(p)
-//@   ensures[C13,C18] (0 <= result0 && result0 <= len(p)) || result1 != nil
+//@   ensures[C13,C18] 0 <= result0 && result0 <= len(p)
 //@   ghost set $lasterr:error = result1
 //@   ghost set $ret.n:int = result0
+//@   requires[C05] @not-closed own(recv) != 3
 //@   maypanic
 //@ interface File.WriteAt
 //@   requires[C07] bound(recv) ==> readLocked(refof(recv))
 //@   ghost set $lasterr:error = result1
 //@   ghost set $ret.n:int = result0
+//@   requires[C05] @not-closed own(recv) != 3
 //@   maypanic
 //@ interface File.SetXattr
 //@   ghost set $lasterr:error = result0
+//@   requires[C05] @not-closed own(recv) != 3
 //@   maypanic
 //@ interface File.GetXattr
 //@   requires[C08] bound(recv) ==> !fenced(refof(recv))
 //@   ghost set $lasterr:error = result1
+//@   requires[C05] @not-closed own(recv) != 3
 //@   maypanic
 //@ interface File.ListXattrs
 //@   requires[C08] bound(recv) ==> !fenced(refof(recv))
 //@   ghost set $lasterr:error = result1
+//@   requires[C05] @not-closed own(recv) != 3
 //@   maypanic
 //@ interface File.RemoveXattr
 //@   ghost set $lasterr:error = result0
+//@   requires[C05] @not-closed own(recv) != 3
 //@   maypanic
 //@ interface File.FSync
 //@   requires[C07] bound(recv) ==> readLocked(refof(recv))
 //@   ghost set $lasterr:error = result0
+//@   requires[C05] @not-closed own(recv) != 3
 //@   maypanic
 //@ interface File.Lock
 //@   ghost set $lasterr:error = result1
+//@   requires[C05] @not-closed own(recv) != 3
 //@   maypanic
 //@ interface File.Create
 //@   requires[C07] bound(recv) ==> writeLocked(refof(recv))
@@ -255,6 +299,8 @@ package p9
 //@   ghost set $lasterr:error = result3
 //@   ghost set $ret.File:File = result0
 //@   ensures result3 == nil ==> result0 != nil
+//@   requires[C05] @not-closed own(recv) != 3
+//@   ghost own result0 = ite(result3 == nil, 1, own(result0))
 //@   maypanic
 //@ interface File.Mkdir
 //@   requires[C07] bound(recv) ==> writeLocked(refof(recv))
@@ -262,6 +308,7 @@ package p9
 //@   requires[C09] safe(name)
 //@   ghost set $lasterr:error = result1
 //@   ghost set $ret.QID:QID = result0
+//@   requires[C05] @not-closed own(recv) != 3
 //@   maypanic
 //@ interface File.Symlink
 //@   requires[C07] bound(recv) ==> writeLocked(refof(recv))
@@ -269,6 +316,7 @@ package p9
 //@   requires[C09] safe(newName)
 //@   ghost set $lasterr:error = result1
 //@   ghost set $ret.QID:QID = result0
+//@   requires[C05] @not-closed own(recv) != 3
 //@   maypanic
 //@ interface File.Link
 //@   requires[C07] bound(recv) ==> writeLocked(refof(recv))
@@ -276,6 +324,7 @@ package p9
 //@   requires[C08] @target-not-fenced bound(target) ==> !fenced(refof(target))
 //@   requires[C09] safe(newName)
 //@   ghost set $lasterr:error = result0
+//@   requires[C05] @not-closed own(recv) != 3
 //@   maypanic
 //@ interface File.Mknod
 //@   requires[C07] bound(recv) ==> writeLocked(refof(recv))
@@ -283,6 +332,7 @@ package p9
 //@   requires[C09] safe(name)
 //@   ghost set $lasterr:error = result1
 //@   ghost set $ret.QID:QID = result0
+//@   requires[C05] @not-closed own(recv) != 3
 //@   maypanic
 //@ interface File.RenameAt
 //@   requires[C07] bound(recv) ==> globalLocked(refof(recv))
@@ -291,6 +341,7 @@ package p9
 //@   requires[C09] @old-name safe(oldName)
 //@   requires[C09] @new-name safe(newName)
 //@   ghost set $lasterr:error = result0
+//@   requires[C05] @not-closed own(recv) != 3
 //@   maypanic
 //@ interface File.UnlinkAt
 //@   requires[C07] @dir-write-locked bound(recv) ==> writeLocked(refof(recv))
@@ -298,22 +349,27 @@ package p9
 //@   requires[C08] bound(recv) ==> !fenced(refof(recv))
 //@   requires[C09] safe(name)
 //@   ghost set $lasterr:error = result0
+//@   requires[C05] @not-closed own(recv) != 3
 //@   maypanic
 //@ interface File.Readdir
 //@   requires[C07] bound(recv) ==> readLocked(refof(recv))
 //@   requires[C08] bound(recv) ==> !fenced(refof(recv))
 //@   ghost set $lasterr:error = result1
+//@   requires[C05] @not-closed own(recv) != 3
 //@   maypanic
 //@ interface File.Readlink
 //@   requires[C07] bound(recv) ==> readLocked(refof(recv))
 //@   requires[C08] bound(recv) ==> !fenced(refof(recv))
 //@   ghost set $lasterr:error = result1
+//@   requires[C05] @not-closed own(recv) != 3
 //@   maypanic
 //@ interface File.Renamed
 //@   requires[C07] bound(recv) ==> globalLocked(refof(recv))
+//@   requires[C05] @not-closed own(recv) != 3
 //@   maypanic
 //@ interface Attacher.Attach
 //@   ensures result1 == nil ==> result0 != nil
+//@   ghost own result0 = ite(result1 == nil, 1, own(result0))
 //@   ghost set $lasterr:error = result1
 //@   maypanic
 
@@ -340,6 +396,7 @@ package p9
 //@   nopanic
 
 //@ group handlerBase
+//@   requires[C05,C15] noOwed()
 //@   requires[C07,C08,C16] Inodes()
 //@   ensures[C07,C08,C16] @tree-nodes-invariant Inodes()
 //@   requires[C07,C08] Irefs()
@@ -349,6 +406,8 @@ package p9
 //@   ensures[C09] @names-stay-safe InamesSafe()
 //@   requires[C04] Ifid(cs)
 //@   modifies *
+//@   ensures[C05,C15] @references-balanced sameOwed()
+//@   ensures[C05,C15] @no-file-leaked sameOwn()
 //@   ensures[C15] @locks-released nolocks()
 //@   panic_ensures[C15] @locks-released-on-panic nolocks()
 //@   ensures[C04] @table-invariant Ifid(cs)
@@ -356,6 +415,7 @@ package p9
 // helpers called by handlers get a precise frame instead of "*": reference
 // counts and path-tree registrations (DecRef), the backend call log
 //@ group helperFrame
+//@   requires[C05,C15] owedNonNeg()
 //@   requires[C07,C08,C16] Inodes()
 //@   requires[C07,C08] Irefs()
 //@   requires[C15,C16] nolocks()
@@ -363,7 +423,7 @@ package p9
 //@   ensures[C09] @names-stay-safe InamesSafe()
 //@   panic_ensures[C09] InamesSafe()
 //@   requires[C04] Ifid(cs)
-//@   modifies type:fidRef.refs, maps(map[*fidRef]string), maps(map[string]map[*fidRef]struct{}), maps(map[*fidRef]struct{}), $ncalls, $n.*, $lasterr, $ret.*
+//@   modifies type:fidRef.refs, maps(map[*fidRef]string), maps(map[string]map[*fidRef]struct{}), maps(map[*fidRef]struct{}), $ncalls, $n.*, $lasterr, $ret.*, $owed, $own
 //@   ensures[C15] @locks-released nolocks()
 //@   panic_ensures[C15] @locks-released-on-panic nolocks()
 
@@ -499,13 +559,14 @@ package p9
 
 //@ func (*pathNode).addChild
 //@   abstract
+//@   requires[C05,C08,C15] @not-yet-registered !has(p.childRefNames, ref)
 //@   requires[C15,C16] held(p.childMu) == 0
 //@   requires[C09] safe(name)
 //@   requires[C09] InamesSafe()
 //@   ensures[C09] InamesSafe()
 //@   panic_ensures[C09] InamesSafe()
 //@   modifies mapof(p.childRefNames), mapof(p.childRefs), maps(map[*fidRef]struct{})
-//@   maypanic
+//@   nopanic
 
 // markChildDeleted / renameChildTo walk the tree below the entry (unbounded
 // recursion, loops over maps being mutated): contracts assumed, see DESIGN.md.
@@ -636,6 +697,9 @@ package p9
 // ---- clunk / remove: always unbind ----------------------------------------------
 //@ func clunkHandleXattr
 //@   use helperFrame
+//@   ensures[C05,C15] @references-balanced sameOwed()
+//@   panic_ensures[C05,C15] @references-balanced-on-panic sameOwed()
+//@   ensures[C05,C15] @no-file-leaked sameOwn()
 //@   ensures[C04] @nil-or-error result == nil || typeis(result, *rlerror)
 //@   ensures[C04] @plain-fid-no-backend old(has(cs.fids, t.fid)) && old(cs.fids[t.fid].pendingXattr.op) != xattrCreate ==> nocalls() && result == nil
 //@   ensures[C04] @unbound-no-backend !old(has(cs.fids, t.fid)) ==> nocalls()
@@ -704,7 +768,11 @@ package p9
 //@   requires[C07] @from-read-locked bound(from) ==> readLocked(refof(from))
 //@   requires[C08] @from-not-fenced bound(from) && len(names) > 0 ==> !fenced(refof(from))
 //@   requires[C09] @component-safe len(names) == 1 ==> safe(names[0])
-//@   modifies arrays(QID), $ncalls, $n.*, $lasterr, $ret.*
+//@   modifies arrays(QID), $ncalls, $n.*, $lasterr, $ret.*, $own
+//@   requires[C05] @from-not-closed own(from) != 3
+//@   ensures[C05,C15] @returns-owned-file result4 == nil ==> own(result1) == 1
+//@   ensures[C05,C15] @no-other-file-left-open sameOwn(result1)
+//@   ensures[C05,C15] @error-closes-what-it-opened result4 != nil ==> sameOwn()
 //@   ensures[C04,C05,C15] @file-iff-success (result4 == nil) == (result1 != nil)
 //@   ensures[C09,C04] @too-many-names-refused len(names) > 1 ==> errIs(result4, linux.EINVAL) && nocalls()
 //@   ensures[C15,C16] samelocks()
@@ -719,6 +787,11 @@ package p9
 //@   ensures[C07,C08,C16] @tree-nodes-invariant Inodes()
 //@   ensures[C04] @table-invariant Ifid(cs)
 //@   ensures[C04,C05] @ref-iff-success (err == nil) == (newRef != nil)
+//@   ensures[C05,C15] @returns-one-reference err == nil ==> owed(newRef) == old(owed(newRef)) + 1 && sameOwed(newRef)
+//@   ensures[C05,C15] @error-drops-every-reference err != nil ==> sameOwed()
+//@   ensures[C05,C15] @no-file-leaked sameOwn()
+//@   loop 1 invariant[C05,C15] owed(walkRef) == old(owed(walkRef)) + 1 && sameOwed(walkRef)
+//@   loop 1 invariant[C05,C15] sameOwn()
 //@   ensures[C04] @new-ref-on-this-server err == nil ==> newRef.server == cs.server && !newRef.opened
 //@   ensures[C09] @unsafe-component-einval exists(j, 0, len(names), !safe(names[j])) ==> errIs(err, linux.EINVAL) && nocalls()
 //@   ensures[C08] @fenced-start-enoent len(names) > 0 && forall(j, 0, len(names), safe(names[j])) && FileMode.IsDir(old(ref.mode)) && old(fenced(ref)) ==> errIs(err, linux.ENOENT) && nocalls()
